@@ -29,6 +29,7 @@ CAMS_TLR = ["CAM_TRAFFIC_LIGHT", "CAM_TRAFFIC_LIGHT_NEAR"]
 CAMS_GEN = ["CAM_FRONT", "CAM_BACK"]
 CAMS_PREFIX, UU_PREFIX = ["CAM_FRONT", "CAM_FRONT_LEFT"], ["1", "left_1", "front_left_1"]
 CAMS_PREFIX2, UU_PREFIX2 = ["CAM_BACK", "CAM_BACK_LEFT"], ["7", "left_7", "back_left_7"]
+UU_LONG = ["0123456789abcdef0123456789abcdef-obj-1", "0123456789abcdef0123456789abcdef-obj-2", "0123456789abcdef0123456789abcdef-obj"]
 TLR_LABELS = ["GREEN", "RED", "UNKNOWN"]
 GEN_LABELS = ["CAR", "PEDESTRIAN"]
 
@@ -54,6 +55,8 @@ def units(tier, seed):
     # generic objects of cameras whose names extend one another, with uuids that spell the difference (cam_front + "left_1" / cam_front_left + "1")
     for k in range(4):
         u.append(dict(path="generic_prefix", chunk=[k, 4]))
+    # the ground-truth list holds the very same object instances as the estimate list, in another order (a result evaluated against itself)
+    u.append(dict(path="tlr_shared"))
     # every ordered pair of the light states of the golden table, one light per side
     for k in range(4):
         u.append(dict(path="tlr_all", chunk=[k, 4]))
@@ -73,12 +76,22 @@ def run_unit(unit, acc):
         return
     if unit["path"] == "generic_prefix":
         ES = list(_sets(2, GEN_LABELS[:1], CAMS_PREFIX, UU_PREFIX)) + list(_sets(1, GEN_LABELS, CAMS_PREFIX2, UU_PREFIX2))
+        # uuids longer than a canonical 36-character uuid that agree in their first 36 characters
+        ES += list(_sets(2, GEN_LABELS[:1], CAMS_GEN[:1], UU_LONG))
         k, n = unit["chunk"]
         for i, E in enumerate(ES):
             if i % n != k:
                 continue
             for Gs in ES:
                 check_case(dict(path="generic", E=[list(x) for x in E], G=[list(x) for x in Gs], first=False), acc)
+        return
+    if unit["path"] == "tlr_shared":
+        for E in _sets(3, TLR_LABELS, CAMS_TLR[:1]):
+            if len(E) < 2:
+                continue
+            for perm in itertools.permutations(E):
+                for first in (False, True):
+                    check_case(dict(path="tlr", E=[list(x) for x in E], G=[list(x) for x in perm], first=first, shared=True), acc)
         return
     if unit["path"] == "tlr_all":
         from mc.ref import labels as RL
@@ -248,6 +261,8 @@ def check_case(case, acc):
         # third pass (traffic lights): the estimates carry alias names (crosswalk_*) of the same labels
         eo = [_mk(path, *x, alias=order == 2) for x in EE]
         go = [_mk(path, *x) for x in GG]
+        if case.get("shared"):
+            go = [eo[EE.index(x)] for x in GG]
         e_in, g_in = list(eo), list(go)
         acc.exec()
         try:
